@@ -124,6 +124,22 @@ func (c *Ctx) anchors() *Anchors {
 		if !ok {
 			return
 		}
+		// several commands may bind a flag of the same name to variables of their own
+		// (redact / decrypt / a key-checking command all have --encryptionKeyFile): the anchor is
+		// the variable the redact command's closure captures
+		captured := false
+		for _, ci := range cmds {
+			if ci.run != nil && ci.run == a.RedactClosure && ci.mc != nil {
+				for _, b := range ci.mc.Bindings {
+					if b == call.Call.Args[1] {
+						captured = true
+					}
+				}
+			}
+		}
+		if _, had := a.FlagAlloc[name]; had && !captured {
+			return
+		}
 		a.FlagAlloc[name] = call.Call.Args[1]
 		kind := strings.TrimSuffix(strings.TrimSuffix(m, "P"), "Var")
 		a.FlagKind[name] = strings.ToLower(kind[:1]) + kind[1:]
